@@ -472,6 +472,69 @@ fn smuggle_exec(kind: &usize, ctx: &WorkerCtx) -> ExecResult {
     })
 }
 
+/// (0) A reply of 100 000 bytes and the replies of two more calls written by the peer in one piece: every call returns its
+/// own. (1) 1 100 calls that time out one after the other, then one that is answered: a node does not run out of calls.
+fn volume_exec(kind: &usize, ctx: &WorkerCtx) -> ExecResult {
+    let kind = *kind;
+    run_rt(async move {
+        let mut res = ExecResult::default();
+        let mut nw = match node_world(ctx, flags_default()).await { Ok(x) => x, Err(e) => { res.violations.push(("could not establish the connection under a conforming peer".into(), json!({"error": e}))); return res; } };
+        nw.w.gates.set_active(&[]);
+        let results: Arc<Mutex<Vec<(i64, CallResult)>>> = Arc::new(Mutex::new(vec![]));
+        let probe = { let r = results.clone(); move || r.lock().unwrap().len() as u64 };
+        let spawn_call = |k: i64, secs: u64| {
+            let (node, results_t) = (nw.node.clone(), results.clone());
+            tokio::spawn(async move {
+                let r = node.rpc_call_raw_with_timeout(PEER_NAME, "m", "f", vec![OwnedTerm::Integer(k)], Duration::from_secs(secs)).await;
+                results_t.lock().unwrap().push((k, match r { Ok(v) => CallResult::Ok(format!("{:?}", v)), Err(edp_node::Error::RpcTimeout(_)) => CallResult::Timeout, Err(edp_node::Error::RpcCancelled) => CallResult::Cancelled, Err(e) => CallResult::Other(e.to_string()) }));
+            });
+        };
+        if kind == 0 {
+            for k in 1..=3 { spawn_call(k, 100); nw.w.settle(&mut nw.peer, &probe).await; }
+            let (frames, _) = nw.peer.dist_frames();
+            let mut tos: std::collections::BTreeMap<i64, RefVal> = Default::default();
+            for f in &frames { if let Ok(m) = read_pass_through(f) { if let Some((from, k)) = marker_of_request(&m) { tos.insert(k, from); } } }
+            if tos.len() != 3 { res.violations.push(("request of a call never reached the peer".into(), json!({"requests_seen": tos.len()}))); return res; }
+            let big = DistMsg { control: RefVal::Tuple(vec![RefVal::int(2), RefVal::atom(""), tos[&1].clone()]), payload: Some(RefVal::Tuple(vec![RefVal::atom("rex"), RefVal::binary(&(0..100_000u32).map(|i| (i % 251) as u8).collect::<Vec<u8>>())])) };
+            let mut all = frame(&write_pass_through(&big), 4);
+            all.extend_from_slice(&reply_frame(&tos[&2], 2));
+            all.extend_from_slice(&reply_frame(&tos[&3], 3));
+            nw.peer.send(&all);
+            for _ in 0..40 { nw.w.settle(&mut nw.peer, &probe).await; if results.lock().unwrap().len() >= 3 { break; } }
+            tokio::time::advance(Duration::from_secs(200)).await;
+            nw.w.settle(&mut nw.peer, &probe).await;
+            let got = results.lock().unwrap().clone();
+            let ok2 = got.iter().find(|x| x.0 == 2).map(|x| x.1.clone()) == Some(CallResult::Ok(format!("{:?}", expected_reply_term(2))));
+            let ok3 = got.iter().find(|x| x.0 == 3).map(|x| x.1.clone()) == Some(CallResult::Ok(format!("{:?}", expected_reply_term(3))));
+            let ok1 = matches!(got.iter().find(|x| x.0 == 1).map(|x| &x.1), Some(CallResult::Ok(_)));
+            if !(ok1 && ok2 && ok3) { res.violations.push(("a call returned something other than the reply addressed to it".into(), json!({"what": "a 100 000-byte reply followed in the same segment by two more replies", "results": got.iter().map(|x| format!("{}: {}", x.0, format!("{:?}", x.1).chars().take(90).collect::<String>())).collect::<Vec<_>>()}))); }
+        } else {
+            for k in 0..1100i64 {
+                spawn_call(1000 + k, 1);
+                for _ in 0..6 { nw.w.yield_once().await; nw.peer.pump(); }
+                tokio::time::advance(Duration::from_millis(1100)).await;
+                for _ in 0..6 { nw.w.yield_once().await; nw.peer.pump(); }
+            }
+            nw.w.settle(&mut nw.peer, &probe).await;
+            let timed_out = results.lock().unwrap().iter().filter(|x| x.1 == CallResult::Timeout).count();
+            spawn_call(7, 100);
+            nw.w.settle(&mut nw.peer, &probe).await;
+            let (frames, _) = nw.peer.dist_frames();
+            let mut to = None;
+            for f in &frames { if let Ok(m) = read_pass_through(f) { if let Some((from, 7)) = marker_of_request(&m) { to = Some(from); } } }
+            if let Some(to) = &to { nw.peer.send(&reply_frame(to, 7)); }
+            nw.w.settle(&mut nw.peer, &probe).await;
+            let last = results.lock().unwrap().iter().find(|x| x.0 == 7).map(|x| x.1.clone());
+            if timed_out != 1100 || last != Some(CallResult::Ok(format!("{:?}", expected_reply_term(7)))) || nw.node.pending_rpc_count() != 0 {
+                res.violations.push(("a call did not return the reply addressed to it after many earlier calls had timed out".into(), json!({"earlier_calls_timed_out": timed_out, "request_reached_the_peer": to.is_some(), "call_returned": format!("{:?}", last), "pending": nw.node.pending_rpc_count()})));
+            }
+        }
+        res.steps = 3;
+        res.outcome = format!("volume {}", kind);
+        res
+    })
+}
+
 /// Two remote nodes whose names stand in a prefix relation (`peer@127.0.0.1` and `peer@127.0.0.1x`): a call to one of them
 /// waits while the connection to the other goes down; the waiting call still gets its reply, and a call to the node that
 /// went down is the one that fails.
@@ -647,6 +710,8 @@ pub fn run(rep: &Report) -> Value {
     let st_s = crate::explore::for_all(rep, "late reply of a finished call re-sent before each later reply", &lens, |n, ctx| straggler_exec(n, ctx));
     let crs = vec![1u32, 2, 77];
     let st_ps = crate::explore::for_all(rep, "a call made before Node::start, its late reply after a call made afterwards", &crs, |n, ctx| prestart_straggler_exec(n, ctx));
+    let vo = vec![0usize, 1];
+    let st_vo = crate::explore::for_all(rep, "a very large reply ahead of others; 1 100 timed-out calls before an answered one", &vo, |n, ctx| volume_exec(n, ctx));
     let sm = vec![0usize, 1, 2];
     let st_sm = crate::explore::for_all(rep, "a reply frame for a waiting call hidden inside another frame", &sm, |n, ctx| smuggle_exec(n, ctx));
     let pn = vec![0usize, 1];
@@ -655,7 +720,7 @@ pub fn run(rep: &Report) -> Value {
     let st_fn = crate::explore::for_all(rep, "calls failing on another connection between waiting calls", &nf, |n, ctx| failing_neighbour_exec(n, ctx));
     let sizes = vec![(24usize, false), (24, true)];
     let st_st = crate::explore::for_all(rep, "peer stops reading under an oversized request, second caller queued behind it", &sizes, |n, ctx| stalled_rpc_exec(n, ctx));
-    let states: u64 = all.iter().map(|(_, s)| s.executions).sum::<u64>() + st_s.executions + st_st.executions + st_fn.executions + st_ps.executions + st_pn.executions + st_sm.executions;
+    let states: u64 = all.iter().map(|(_, s)| s.executions).sum::<u64>() + st_s.executions + st_st.executions + st_fn.executions + st_ps.executions + st_pn.executions + st_sm.executions + st_vo.executions;
     let transitions: u64 = all.iter().map(|(_, s)| s.transitions).sum::<u64>() + st_s.transitions;
     let mut samples: Vec<Value> = vec![];
     for (_, s) in &all { samples.extend(s.samples.iter().take(2).cloned()); }
